@@ -74,6 +74,15 @@ class Ex:
       kws = {k.arg: un(k.value) for k in e.keywords}
       if un(f) == 'np.array' and len(e.args) == 1 and kws in ({}, {'dtype': 'float'}):
         return self.ex(e.args[0], env)
+      if un(f) == 'np.atleast_1d' and len(e.args) == 1 and not kws:
+        # the value of a constraint as a vector of components: the model's constraints are scalar-valued (one component)
+        t, ty = self.ex(e.args[0], env)
+        if ty == 'S':
+          return (t, 'S1')
+      if un(f) == 'np.abs' and len(e.args) == 1 and not kws:
+        t, ty = self.ex(e.args[0], env)
+        if ty == 'S1':
+          return ('(nabs %s)' % t, 'S1')
       if un(f) == 'abs' and len(e.args) == 1:
         t, ty = self.ex(e.args[0], env)
         if ty == 'S':
@@ -157,6 +166,20 @@ class Ex:
           return m[op]
       if (ta, tb) == ('Z', 'S') and op is ast.Eq and isinstance(r, ast.Constant) and isinstance(r.value, int):
         return '(Z.eqb %s %d)' % (a, r.value)
+    # (components <cmp> literal).any() / .all(): a test of every component of a constraint value; the model has one component
+    if isinstance(e, ast.Call) and isinstance(e.func, ast.Attribute) and e.func.attr in ('all', 'any') and not e.args and isinstance(e.func.value, ast.Compare) and \
+       len(e.func.value.ops) == 1:
+      c = e.func.value
+      try:
+        a, ta = self.ex(c.left, env)
+        b, tb = self.ex(c.comparators[0], env)
+      except Unsupported:
+        a = ta = b = tb = None
+      if (ta, tb) == ('S1', 'S'):
+        op = type(c.ops[0])
+        m = {ast.Lt: '(%s <? %s)' % (a, b), ast.Gt: '(%s <? %s)' % (b, a), ast.LtE: '(%s <=? %s)' % (a, b), ast.GtE: '(%s <=? %s)' % (b, a)}
+        if op in m:
+          return m[op]
     # (X == Y).all()
     if isinstance(e, ast.Call) and isinstance(e.func, ast.Attribute) and e.func.attr in ('all', 'any') and not e.args and isinstance(e.func.value, ast.Compare) and \
        len(e.func.value.ops) == 1 and isinstance(e.func.value.ops[0], ast.Eq):
